@@ -1,4 +1,5 @@
 import LnnVerif.Model.Arith
 import LnnVerif.Model.Node
 import LnnVerif.Model.PropEngine
+import LnnVerif.Model.Fol
 import LnnVerif.Props.All
